@@ -122,6 +122,16 @@ CLAIMED['C11'] = dict(
          'for dates by C06 O6.2 and for times by C07. Corpus clause, set/timezone types and holiday tables are outside. ' + NOTE_COMMON,
     design='§5/C11')
 
+CLAIMED['C13'] = dict(
+    technique='z3 regular-expression equivalence between the real IPv4/IPv6/GUID patterns (translated from source each run) and grammar oracles; CrossHair for the canonicaliser',
+    text='The patterns the sequence recogniser compiles are translated to z3 regex terms and proved equal, for strings of unbounded length, to oracle languages '
+         'built from the address grammars (all 256^4 IPv4 addresses with up to three digits per octet, every RFC 4291 text form, every GUID layout of the pattern). '
+         'A counterexample is a concrete string, replayed against the real regex engine and an independent validity predicate. drop_leading_zeros is confirmed by '
+         'CrossHair over all pairs of 1..3-digit groups. Solver-generated members and near-misses go through recognize_ip_address / recognize_guid as a composition check.',
+    note='Edge word-boundary assertions are stripped (reported in the evidence); exact-span recognition inside text is only validated on solver witnesses, not proved. '
+         'E-mail/URL/hashtag/mention/phone clauses are not covered (patterns with nested look-arounds are outside the translator). ' + NOTE_COMMON,
+    design='§5/C13')
+
 NOT_APPLICABLE = {
     'C18': 'ground equality of ~50 concrete generated files against concrete YAML: no quantified variable for a solver to range over; '
            'deciding it is executing the generator (whose dependency ruamel.yaml is absent from every usable interpreter)',
